@@ -257,16 +257,16 @@ def run(ctx):
     ctx.coq_props()
     rng = ctx.rng
     quick = ctx.tier == "quick"
-    n = 150 if quick else 900
+    n = 110 if quick else 900
     cases = [dict(c) for c in CORPUS]
     while len(cases) < n:
         big = rng.random() < (0.06 if quick else 0.12)
-        cases.append(gen_case(rng, (4200 if big else 700)))
+        cases.append(gen_case(rng, ((1500 if quick else 4200) if big else (500 if quick else 900))))
     obs = ctx.run_impl("c54_impl.py", {"cases": cases})
     header = ("From Coq Require Import QArith.\nFrom PLV Require Import Disc.PauliAlgModel Disc.BoseModel.\n"
               "Open Scope Z_scope.")
     terms = [g_case(c, o) for c, o in zip(cases, obs)]
-    bad = ctx.coq_eval_cases("cases", header, terms, "check_case", chunk=12, par=12)
+    bad = ctx.coq_eval_cases("cases", header, terms, "check_case", chunk=(14 if quick else 40), par=12)
     # exact comparison where the coefficients are certainly rational (two levels: sqrt(1) only)
     ex_idx = []
     for i, (c, o) in enumerate(zip(cases, obs)):
